@@ -661,6 +661,89 @@ static void run_search(uint64_t seed, long streams)
    printf("# search cases=%ld violations=%ld silk=%ld hybrid=%ld celt=%ld multiframe=%ld padded=%ld\n", cases, viol, modes[0], modes[1], modes[2], multi, padded);
 }
 
+
+/* ------------------------------------------------------------------ self-reference corpus (regression oracle) */
+typedef struct { const char *name; int Fs, ch, app, bitrate, mode, maxbw, dur10, fec, nframes, lose_at, trans; } cstream;
+static const cstream CORPUS[] = {
+   {"silk_nb_20_m",  8000, 1, OPUS_APPLICATION_VOIP, 10000, MODE_SILK_ONLY, OPUS_BANDWIDTH_NARROWBAND, 200, 0,  9, -1, 0},
+   {"silk_mb_10_m", 12000, 1, OPUS_APPLICATION_VOIP, 14000, MODE_SILK_ONLY, OPUS_BANDWIDTH_MEDIUMBAND, 100, 0, 14, -1, 0},
+   {"silk_wb_20_s", 16000, 2, OPUS_APPLICATION_VOIP, 26000, MODE_SILK_ONLY, OPUS_BANDWIDTH_WIDEBAND,   200, 1,  8,  4, 0},
+   {"silk_wb_60_m", 16000, 1, OPUS_APPLICATION_VOIP, 16000, MODE_SILK_ONLY, OPUS_BANDWIDTH_WIDEBAND,   600, 0,  3, -1, 0},
+   {"hyb_swb_20_m", 24000, 1, OPUS_APPLICATION_VOIP, 28000, MODE_HYBRID,    OPUS_BANDWIDTH_SUPERWIDEBAND, 200, 0, 7, -1, 0},
+   {"hyb_fb_10_s",  48000, 2, OPUS_APPLICATION_AUDIO, 44000, MODE_HYBRID,   OPUS_BANDWIDTH_FULLBAND,   100, 0, 10, -1, 0},
+   {"celt_fb_20_s", 48000, 2, OPUS_APPLICATION_AUDIO, 64000, MODE_CELT_ONLY, OPUS_BANDWIDTH_FULLBAND,  200, 0,  5, -1, 0},
+   {"celt_wb_5_m",  16000, 1, OPUS_APPLICATION_AUDIO, 36000, MODE_CELT_ONLY, OPUS_BANDWIDTH_WIDEBAND,   50, 0, 20, -1, 0},
+   {"trans_m",      48000, 1, OPUS_APPLICATION_VOIP, 20000, MODE_SILK_ONLY, OPUS_BANDWIDTH_FULLBAND,   200, 0, 10, -1, 1},
+};
+static void run_corpusgen(const char *dir)
+{
+   char path[1024]; FILE *fi, *fr; unsigned k;
+   static opus_int16 audio[48000 * 2], out[5760 * 2];
+   static unsigned char pk[1500];
+   snprintf(path, sizeof path, "%s/streams.txt", dir); fi = fopen(path, "w");
+   snprintf(path, sizeof path, "%s/ref48.s16", dir); fr = fopen(path, "wb");
+   if (!fi || !fr) { fprintf(stderr, "cannot write corpus to %s\n", dir); exit(9); }
+   for (k = 0; k < sizeof(CORPUS) / sizeof(CORPUS[0]); k++) {
+      const cstream *c = &CORPUS[k]; vrng r; int err, f, fsz = c->dur10 == 50 ? c->Fs / 200 : c->Fs / 100 * c->dur10 / 100; long total = 0;
+      OpusEncoder *e = opus_encoder_create(c->Fs, c->ch, c->app, &err);
+      OpusDecoder *d = opus_decoder_create(48000, c->ch, &err);
+      enccfg cfg; memset(&cfg, 0, sizeof cfg);
+      cfg.bitrate = c->bitrate; cfg.vbr = 1; cfg.fec = c->fec; cfg.loss = c->fec ? 25 : 0; cfg.dtx = 0; cfg.force_mode = c->mode; cfg.maxbw = c->maxbw; cfg.cx = 9;
+      apply_cfg(e, &cfg);
+      r.s = 0xC03C03ULL + k * 7919;
+      gen_audio(&r, c->Fs, c->ch, (long)c->nframes * fsz, audio);
+      fprintf(fi, "S %s %d\n", c->name, c->ch);
+      for (f = 0; f < c->nframes; f++) {
+         long n; int ret;
+         if (c->trans && f == 3) { cfg.force_mode = MODE_HYBRID; cfg.bitrate = 32000; apply_cfg(e, &cfg); }
+         if (c->trans && f == 6) { cfg.force_mode = MODE_CELT_ONLY; cfg.bitrate = 48000; apply_cfg(e, &cfg); }
+         if (c->trans && f == 8) { cfg.force_mode = MODE_SILK_ONLY; cfg.bitrate = 16000; cfg.maxbw = OPUS_BANDWIDTH_WIDEBAND; apply_cfg(e, &cfg); }
+         n = opus_encode(e, audio + (long)f * fsz * c->ch, fsz, pk, 1500);
+         if (n < 1) { fprintf(stderr, "encode failed\n"); exit(9); }
+         if (f == c->lose_at) {
+            int spf48 = opus_packet_get_samples_per_frame(pk, 48000);
+            fprintf(fi, "L %d\n", spf48);
+            ret = opus_decode(d, NULL, 0, out, spf48, 0);
+            if (ret > 0) { fwrite(out, 2 * c->ch, ret, fr); total += ret; }
+            continue;
+         }
+         if (f == c->lose_at + 1 && c->lose_at >= 0) {
+            /* the packet after the loss is first decoded for its FEC data — replacing nothing here: the lost frame was
+               concealed above; this exercises the LBRR decode path on the PCM side as an extra frame */
+            int spf48 = opus_packet_get_samples_per_frame(pk, 48000);
+            fprintf(fi, "P 1 "); vhex(fi, pk, n); fprintf(fi, "\n");
+            ret = opus_decode(d, pk, (opus_int32)n, out, spf48, 1);
+            if (ret > 0) { fwrite(out, 2 * c->ch, ret, fr); total += ret; }
+         }
+         fprintf(fi, "P 0 "); vhex(fi, pk, n); fprintf(fi, "\n");
+         ret = opus_decode(d, pk, (opus_int32)n, out, 5760, 0);
+         if (ret > 0) { fwrite(out, 2 * c->ch, ret, fr); total += ret; }
+      }
+      fprintf(fi, "N %ld\n", total);
+      opus_encoder_destroy(e); opus_decoder_destroy(d);
+   }
+   fclose(fi); fclose(fr);
+}
+static void run_corpusdec(const char *pkfile, int rate, int ch, const char *outfile)
+{
+   static char line[8000]; static unsigned char buf[2000]; static opus_int16 out[5760 * 2];
+   FILE *fi = fopen(pkfile, "r"), *fo = fopen(outfile, "wb"); int err;
+   OpusDecoder *d = opus_decoder_create(rate, ch, &err);
+   if (!fi || !fo || !d) { fprintf(stderr, "corpusdec: cannot open\n"); exit(9); }
+   while (fgets(line, sizeof line, fi)) {
+      int ret = 0;
+      if (line[0] == 'L') { int n48 = atoi(line + 2); ret = opus_decode(d, NULL, 0, out, (int)((long)n48 * rate / 48000), 0); }
+      else if (line[0] == 'P') {
+         int fec = line[2] == '1'; long n = vunhex(line + 4, buf, sizeof buf);
+         if (n < 1) { fprintf(stderr, "corpusdec: bad packet line\n"); exit(9); }
+         ret = opus_decode(d, buf, (opus_int32)n, out, fec ? opus_packet_get_samples_per_frame(buf, rate) : rate / 25 * 3, fec);
+      } else continue;
+      if (ret < 0) { fprintf(stderr, "corpusdec: decode error %s\n", verr(ret)); exit(8); }
+      fwrite(out, 2 * ch, ret, fo);
+   }
+   fclose(fi); fclose(fo); opus_decoder_destroy(d);
+}
+
 int main(int argc, char **argv)
 {
    vinstall_traps();
@@ -668,6 +751,8 @@ int main(int argc, char **argv)
    else if (argc >= 4 && !strcmp(argv[1], "real")) run_real(strtoull(argv[2], 0, 10), atol(argv[3]));
    else if (argc >= 2 && !strcmp(argv[1], "stdin")) run_stdin();
    else if (argc >= 4 && !strcmp(argv[1], "search")) run_search(strtoull(argv[2], 0, 10), atol(argv[3]));
+   else if (argc >= 3 && !strcmp(argv[1], "corpusgen")) run_corpusgen(argv[2]);
+   else if (argc >= 6 && !strcmp(argv[1], "corpusdec")) run_corpusdec(argv[2], atoi(argv[3]), atoi(argv[4]), argv[5]);
    else { fprintf(stderr, "usage: c03_silksyms rand|real|search <seed> <n> | stdin\n"); return 64; }
    return 0;
 }
